@@ -106,6 +106,8 @@ struct World {
     flen: usize,
     puts: Vec<PutRec>,
     fatal: bool,
+    /// isolation failures seen while routing (reported by the oracle at the end of the case)
+    leaks: Vec<String>,
 }
 
 impl World {
@@ -147,11 +149,36 @@ impl World {
         )
         .unwrap();
         self.nodes[d].delivered.push(pdu.clone());
+        // isolation oracle: a ToSender PDU whose id is registered nowhere on this daemon belongs to no transaction
+        // here (responses never start one). Every handler call is followed by a settle, so the acknowledged send
+        // transactions of this daemon are waiting for input; none of them may report Finished because of this PDU
+        // (an acknowledged sender reports Finished only when it is handed a Finished PDU; no time passes here).
+        let unregistered_response = settle_after
+            && pdu.header.direction == Direction::ToSender
+            && !self.nodes[d].d.verif_table().iter().any(|(id, _)| *id == key);
+        self.drain_inds().await;
+        let inds_before = self.nodes[d].inds.len();
+        let what = format!("{:?}", pdu.payload).chars().take(40).collect::<String>();
         let r = self.nodes[d].d.verif_forward_pdu(pdu).await;
         if settle_after {
             settle().await;
         }
         self.drain_inds().await;
+        if unregistered_response {
+            for i in &self.nodes[d].inds[inds_before..] {
+                if let Indication::Finished(f) = i {
+                    if f.id != key && self.puts.iter().any(|p| p.id == Some(f.id) && p.mode_acked && p.daemon == d) {
+                        self.leaks.push(format!(
+                            "entity {}: a response PDU of transaction {} (registered nowhere: {what}) made the live send transaction {} report Finished ({:?})",
+                            d + 1,
+                            key_text(&key),
+                            key_text(&f.id),
+                            f.report.condition
+                        ));
+                    }
+                }
+            }
+        }
         writeln!(out, "{}", self.obs(res_class(&r), None)).unwrap();
     }
     async fn cleanup(&mut self, d: usize, out: &mut impl Write, ev: &mut impl Write) {
@@ -298,7 +325,7 @@ pub fn run(ops: &str, out: &mut impl Write, orc: &mut impl Write, ev: &mut impl 
             let flen = get("flen", 40) as usize;
             let clean = get("clean", 0) == 1;
             let ends = get("ends", 0) == 1;
-            let mut world = World { nodes: vec![make_node(1, w, s1, &cfg, 6, flen), make_node(2, w, s2, &cfg, 6, flen)], w, cfg: cfg.clone(), flen, puts: vec![], fatal: false };
+            let mut world = World { nodes: vec![make_node(1, w, s1, &cfg, 6, flen), make_node(2, w, s2, &cfg, 6, flen)], w, cfg: cfg.clone(), flen, puts: vec![], fatal: false, leaks: vec![] };
             settle().await;
             for l in lines.iter() {
                 let t: Vec<&str> = l.split_whitespace().collect();
@@ -444,6 +471,9 @@ pub fn run(ops: &str, out: &mut impl Write, orc: &mut impl Write, ev: &mut impl 
             let mut fail = |msg: String| writeln!(orc, "FAIL C11 case={id} op={} {msg}", lines.len()).unwrap();
             if world.fatal {
                 fail("a daemon handler returned an error that stops manage_transactions".into());
+            }
+            for l in &world.leaks {
+                fail(l.clone());
             }
             // distinct ids per daemon
             for d in 0..2 {
@@ -601,6 +631,26 @@ pub fn gen(seed: u64, tier: &str, w: &mut impl Write, stats: &mut Stats) {
                     // ids of strays never coincide with those of real transactions (a forged PDU carrying the id
                     // of a live transaction belongs to it as far as CFDP can tell)
                     let seq = if kind == 9 { 100 + r.below(50) } else { 215 + r.below(40) };
+                    // ... except that a third of the strays carry the SEQUENCE NUMBER of a transaction that was
+                    // really started, under a different source entity - a different transaction id, which must
+                    // not reach the live transaction (seeded change C11e keyed ToSender PDUs by the daemon's own
+                    // entity id): delivered to the daemon of the real sender (as a response) or of the real
+                    // receiver (as sender traffic)
+                    if !issued.is_empty() && r.chance(1, 3) {
+                        let (d0, s0) = *r.pick(&issued);
+                        let foreign: Vec<u64> = [3u64, 3 - d0].iter().copied().filter(|f| !issued.contains(&(*f, s0))).collect();
+                        if !foreign.is_empty() {
+                            stats.inc("stray_live_seq");
+                            let f = *r.pick(&foreign);
+                            let kinds = ["ACKE", "ACKF", "FIN", "NAK", "EOF", "MD", "FD", "KA", "PR"];
+                            if r.chance(2, 3) {
+                                ops.push(format!("STRAY {d0} S {f} {} {s0} {}", 3 - d0, r.pick(&["FIN", "FIN", "NAK", "ACKE", "KA"])));
+                            } else {
+                                ops.push(format!("STRAY {} R {f} {} {s0} {}", 3 - d0, 3 - d0, r.pick(&kinds)));
+                            }
+                            continue;
+                        }
+                    }
                     ops.push(format!("STRAY {d} {dir} {src} {dst} {seq} {}", r.pick(&["ACKE", "ACKF", "FIN", "NAK", "EOF", "MD", "FD", "KA", "PR"])));
                 }
                 13 => {
